@@ -11,7 +11,7 @@ CLAIMED = {
     'C08': ('The pop / backjump scenarios of the C07, C09, C10 and C14 checks: after every undo the SAT values are again exactly the consequences of clauses and remaining decisions (entailment + propagation fixpoint over ALL assignments), the difference-logic matrix equals the Floyd-Warshall reference of the remaining constraints, LRA bounds equal their snapshot from before the undone decision, object-variable domains equal their snapshot. Includes decisions that update the same bound / distance twice within one level (through root clauses).', '5 C08'),
     'C09': ('lra_theory is driven through sat_core on concrete relation sets and histories (assume / pop / root assertion / check / root clauses / late requests): values are checked concretely against every asserted constraint (strictness through the infinitesimal part), every tableau row and the bounds; cbmc decides over ALL grid points (X,Y) in [-6,6]^2 and ALL SAT assignments that bounds contain every solution, every explanation / learnt clause is valid, inconsistency means infeasibility on the grid. Completeness is relative to the grid.', '5 C09/C11'),
     'C11': ('Every relation literal of lra_theory (fresh, shared through the caches, constant because root bounds decide it, over basic variables, with cancelling variables, requested before or after bounds were tightened) is decided, over ALL grid points and ALL SAT assignments that model the clause database and give every assertion literal its meaning, to be true exactly when its relation holds; a request changes no earlier bound.', '5 C09/C11'),
-    'C18': ('Partial: the API half only. Every query of the C07, C09, C10, C13, C14 and C15-lin checks is re-read for assert() failures (live in the encoding), exceptions escaping noexcept (std::terminate), pure-virtual calls, traps, signed overflow and division by zero. The text-input half (lexer / parser on arbitrary bytes, hangs) could not be encoded (measured, DESIGN.md section 3) and is NOT covered.', '5 C18'),
+    'C18': ('Partial: the API half only. Every query of the C07, C09, C10, C13, C14 and C15-lin checks is re-read for assert() failures (live in the encoding), exceptions escaping noexcept (std::terminate), pure-virtual calls, traps, signed overflow and division by zero; a query whose unwinding assertion fails is replayed natively and a native hang / abort is reported as non-termination. The text-input half (lexer / parser on arbitrary bytes, hangs) could not be encoded (measured, DESIGN.md section 3) and is NOT covered.', '5 C18'),
     'C07': ('The real sat_core (clause database, two-watched-literal propagation, conflict analysis, backjumping, next, check, simplify_db) is executed on concrete clause sets and call histories (curated conflict scenarios plus a seeded sample; systematic families in the thorough tier); after every call cbmc decides over ALL total assignments that every reported value is entailed by the added clauses and standing decisions, every stored or learnt clause is implied, an inconsistency answer means unsatisfiability, and propagation reached its fixpoint. The histories are enumerated, not symbolic (symbolic shapes make cbmc lose constant heap pointers); the quantification over models is symbolic.', '5 C07'),
     'C10': ('idl_theory and rdl_theory are driven through sat_core on concrete constraint sets and assume / pop / root-assert / check histories; after every call cbmc decides for ALL time-point assignments that the reported matrix equals a Floyd-Warshall reference, bounds contain every solution, everything decided is propagated, every explanation / learnt clause is valid under the meaning of its literals, and inconsistency means unsatisfiability. Scenarios are enumerated (curated + seeded sample); the assignment x is symbolic.', '5 C10'),
     'C12': ('The five relation constructors and the bounds / distance / equates queries of idl_theory and rdl_theory are called on concrete expression shapes (coefficients 0,+-1,+-2; integer and half-integer constants; both variable orders; with and without root constraints); cbmc decides for ALL time-point values and ALL SAT assignments compatible with the meaning of the distance literals that the returned literal has the value of the relation, and that query results contain / equal the exact ranges. Three defects found this way were repaired (fix: commits); their reproducers are ordinary queries of both tiers.', '5 C12'),
@@ -19,7 +19,7 @@ CLAIMED = {
     'C15': ('All operators of rational, inf_rational and lin are executed on fully symbolic operands (|num|, den <= B; integer coefficients for lin) and compared by the solver with exact cross-multiplication, canonicity (reduced, positive denominator) and the total order incl. infinities; 64-bit machine words, signed-overflow and division-by-zero checks on. Shapes that change the structure of a lin map (which variables cancel, zero scalar) are enumerated by the driver. Bounded by B, not a proof for all magnitudes.', '5 C15'),
     'C13': ('Every reified construct (eq/conj/disj/at-most-one/exactly-one) of the real sat_core is built for every argument shape inside the bound (operator, argument variables incl. '
             'the constant, signs, duplicates, complements, root pre-assignments, second construction through the cache); for each shape cbmc decides for ALL total assignments that the '
-            'returned literal has the value of the formula in every model of the clause database and that no assignment of the original variables is excluded. Bounded (<=2 arguments quick, '
+            'returned literal has the value of the formula in every model of the clause database and that no assignment of the original variables is excluded (auxiliary variables enumerated); pairs of constructs sharing an argument and pairs of DIFFERENT kinds over the same arguments are checked the same way, the product encoding for 4-7 arguments. Bounded (<=2 arguments quick, '
             '<=3 thorough), not a proof for arbitrary length.', '5 C13'),
 }
 
